@@ -14,7 +14,6 @@ where possible, Python's names, `let mut` for re-assigned locals, explicit state
 Static types of the subset (every expression gets exactly one):
     int  -> Int        bool -> Bool       bytes -> List Nat (elements < 256)     nats -> List Nat (class-level table of naturals)
     ilist -> List Int  (list / tuple of ints)        ('tuple', ts) -> product      none -> Unit
-    bits -> List Bool  (the text `bin(v)[2:]` and its slices / reversals: '0'/'1' characters, see Py.binDigits)
 
 Use:  translate_unit("Rs", [("okdmr.dmrlib.etsi.fec.reed_solomon_12_9_4", "ReedSolomon1294.log_multiply"), ...],
                      fuel={"MBXML.read_uintvar": ["2 * len(data) + 1"]})   ->  Lean source text
@@ -546,14 +545,8 @@ class Translator:
                 x = self.expr(n.args[0], env)
                 if x.typ in ("int", "bool"):
                     return Ex(self.int_of(x, n), "int")
-            if name == "int" and len(n.args) == 2 and not n.keywords:
-                x = self.expr(n.args[0], env)
-                if x.typ == "bits" and isinstance(n.args[1], ast.Constant) and n.args[1].value == 2:
-                    return Ex(f"Py.intOfBits {x.val()}", "int", True)
             if name == "bool" and len(n.args) == 1 and not n.keywords:
                 return Ex(self.truthy(self.expr(n.args[0], env), n), "bool")
-            if name == "bin" and len(n.args) == 1 and not n.keywords:
-                self.f.bad(n, "bin(..) outside the form bin(x)[2:]")
             self.f.bad(n, f"call of `{name}`")
         if isinstance(fn, ast.Attribute):
             # int.from_bytes(b, byteorder=..) / int.to_bytes(x, length=.., byteorder=..)
@@ -574,15 +567,6 @@ class Translator:
             if fn.attr == "to_bytes":
                 kw = self.kwargs(n, ["length", "byteorder", "signed"], env)
                 return self.to_bytes(n, fn.value, kw, env)
-            # math.ceil(a / b) on ints
-            if (isinstance(fn.value, ast.Name) and fn.value.id == "math" and fn.attr == "ceil" and len(n.args) == 1
-                    and isinstance(n.args[0], ast.BinOp) and isinstance(n.args[0].op, ast.Div)
-                    and getattr(self.f.pymod, "math", None) is __import__("math")):
-                a = self.expr(n.args[0].left, env)
-                b = n.args[0].right
-                if a.typ == "int" and isinstance(b, ast.Constant) and type(b.value) is int and b.value > 0:
-                    # exact only while the float quotient is exact enough: Py.ceilDiv answers `unsupported` beyond 2^52
-                    return Ex(f"Py.ceilDiv {a.val()} {b.value}", "int", True)
             callee = self.u.resolve_call(self.f, fn)
             if callee is not None:
                 names = [p[0] for p in callee.params]
@@ -884,8 +868,10 @@ class Translator:
     def loop_common(self, s, env):
         if s.orelse:
             self.f.bad(s, "loop with else")
-        assigned = self.stores(s.body)
-        state = [x for x in assigned if x in env]
+        # the loop state: the locals declared before the loop that the body assigns, in the order of their DECLARATION
+        # (not of their assignment in the body: reordering independent lines of the body must not change the state tuple)
+        assigned = set(self.stores(s.body))
+        state = [x for x in env if x in assigned]
         return state
 
     def loop_body(self, s, env_body, state, ctx_kind_simple, ind):
